@@ -11,7 +11,7 @@ from ..models import FactStore
 PROP = 'C07'
 LEVEL = 'exploration'
 CASES_ARE_COUNTED = True
-TIERS = {'quick': {'runs': 16000, 'budget_s': 45}, 'thorough': {'runs': 1200000, 'budget_s': 900}}
+TIERS = {'quick': {'runs': 14000, 'budget_s': 50}, 'thorough': {'runs': 1200000, 'budget_s': 900}}
 RULE = ('one run = one seeded history of up to 30 database operations on one engine over predicates p/0 p/1 p/2 q/1 r/3 flag/0 and two '
         'never-asserted ones, ground facts, patterns ground / partial / all-variable / repeated-variable; each op goes through a seeded route '
         '(assert_fact API, query() API, compiled wrapper taking the goal as argument, compiled clause with the goal inline) and form (inline term, '
